@@ -257,6 +257,25 @@ func Transport(r *sim.Run, top *[]*UNode, nOps int, deep bool, kinds []string) [
 			}
 			done = append(done, TransportOp{"move", where + "->" + w2, u.Type})
 			r.Fault("unit-moved")
+		case "largesize": // rewrite a box header into the 64-bit size form (legal for any box; typical for mdat)
+			var cands []int
+			for k, n := range list {
+				if !n.Large && (n.Type == "mdat" || t.Chance(100)) {
+					cands = append(cands, k)
+				}
+			}
+			if len(cands) == 0 {
+				continue
+			}
+			k := cands[t.Draw(len(cands))]
+			c := list[k].clone()
+			c.Large = true
+			c.OrigSize += 8
+			nl := append([]*UNode(nil), list...)
+			nl[k] = c
+			*lv.list = nl
+			done = append(done, TransportOp{"largesize", where, c.Type})
+			r.Fault("unit-largesize-header")
 		case "splice":
 			u := ForeignUnit(t, rnd)
 			at := t.Draw(len(list) + 1)
